@@ -47,7 +47,6 @@ struct Frame<'a> {
 pub struct Streams {
     pub elems: Vec<Value>,
     pub secs: Vec<Value>,
-    pub n_tokens: usize,
     pub n_comments: usize,
     /// comments that share their line with the preceding token (trailing trivia)
     pub n_trailing_comments: usize,
@@ -58,7 +57,6 @@ struct Walker<'a> {
     elems: Vec<Value>,
     secs: Vec<Value>,
     stack: Vec<Frame<'a>>,
-    n_tokens: usize,
     n_comments: usize,
     n_trailing_comments: usize,
     /// Element index at which the decorations (attributes + visibility) of the `use` item walked
@@ -175,7 +173,6 @@ impl<'a> Walker<'a> {
             e["x"] = self.facts(kind);
         }
         self.elems.push(e);
-        self.n_tokens += 1;
         self.trivia(&ch[2], true);
     }
 
@@ -298,7 +295,6 @@ pub fn streams<'a>(db: &'a dyn Database, root: &SyntaxNode<'a>) -> Streams {
         elems: vec![],
         secs: vec![],
         stack: vec![],
-        n_tokens: 0,
         n_comments: 0,
         n_trailing_comments: 0,
         use_dec_end: 0,
@@ -307,7 +303,6 @@ pub fn streams<'a>(db: &'a dyn Database, root: &SyntaxNode<'a>) -> Streams {
     Streams {
         elems: w.elems,
         secs: w.secs,
-        n_tokens: w.n_tokens,
         n_comments: w.n_comments,
         n_trailing_comments: w.n_trailing_comments,
     }
@@ -493,7 +488,7 @@ pub fn mutate_rewrap(text: &str, rng: &mut Rng, inject_comments: bool) -> Option
     let ts = terminals(text)?;
     let mut out = String::new();
     let mut injected = 0;
-    for (i, (lead, tok, trail)) in ts.iter().enumerate() {
+    for (i, (lead, tok, _trail)) in ts.iter().enumerate() {
         // gap before this token = previous trailing + this leading
         let prev_trail = if i > 0 { ts[i - 1].2.as_str() } else { "" };
         let gap = format!("{prev_trail}{lead}");
@@ -761,15 +756,9 @@ fn shape(construct: &str, n: usize) -> Option<Shape> {
             sh
         }
         "attr" => s("#[att(", e(""), e(""), ",", ")]\nfn foo() {}", true, false),
-        "whilelet" => s("while let Some((", e(""), e(""), ",", ")) = it.next() {}", true, true),
         _ => return None,
     })
 }
-
-pub const CONSTRUCTS: &[&str] = &[
-    "call", "mchain", "tuple", "farray", "slit", "spat", "fnsig", "generic", "genargs", "binary", "match",
-    "uselist", "usetree", "macro", "letelse", "closure", "ifelse", "implhdr", "attr",
-];
 
 /// Renders an abstract geometry case into Cairo source.
 ///
